@@ -915,6 +915,10 @@ def run_opt(case, tally):
         obs["violations"].append({"invariant": inv, "formulation": fv, "message": msg})
 
     fvs = [["MDF", "MDAChain", case["inner"]], ["IDF", bool(case["normalize"])]] + ([["DOPT"]] if ref.exec is not None else [])
+    # constraint g <= a with a such that design point 0 (at consistent couplings) is strictly feasible: the problem is feasible
+    x_ref = {v: design_value(v, 0) for v in ref.design}
+    out_ref = ref.outputs(ref.data(x_ref, ref.solve(x_ref)[0]))
+    limit = {c: float(np.max(out_ref[c])) + 0.5 for c in cons}
     results = {}
     for fv in fvs:
         discs = [g["Harness"](b, False) for b in ref.bodies]
@@ -927,7 +931,7 @@ def run_opt(case, tally):
             else:
                 sc = MDOScenario([discs[i] for i in ref.exec], obj, ds, formulation_name="DisciplinaryOpt")
             for c in cons:
-                sc.add_constraint(c, constraint_type="ineq")
+                sc.add_constraint(c, constraint_type="ineq", value=limit[c])
             prob = sc.formulation.optimization_problem
             sc.execute(algo_name="SLSQP", max_iter=200, ftol_rel=1e-12, ftol_abs=1e-12, xtol_rel=1e-12, xtol_abs=1e-12,
                        eq_tolerance=FEAS, ineq_tolerance=FEAS)
@@ -950,8 +954,8 @@ def run_opt(case, tally):
         if abs(out[obj][0] - r["f"]) > 1e-9 * fscale:
             viol("optimum-value-is-objective", r["fv"], f"f_opt = {r['f']} but {obj} at x_opt = {out[obj][0]}")
         for c in cons:
-            if np.any(out[c] > FEAS * 10 + 1e-12):
-                viol("optimum-feasible", r["fv"], f"{c}(x_opt) = {out[c]} > 0")
+            if np.any(out[c] - limit[c] > FEAS * 10 + 1e-12):
+                viol("optimum-feasible", r["fv"], f"{c}(x_opt) = {out[c]} > {limit[c]}")
         if key == "IDF":
             for c in ref.couplings:
                 rng = bounds(c)[1] - bounds(c)[0]
